@@ -315,6 +315,7 @@ func Gen(rng *rand.Rand, class string, o GenOpts) *Batch {
 		}
 		b.Docs = append(b.Docs, doc)
 	}
+	AddShapes(b, 11)
 	if o.Vec {
 		salt := o.VecSalt
 		if salt == 0 {
@@ -326,6 +327,21 @@ func Gen(rng *rand.Rand, class string, o GenOpts) *Batch {
 		addSynonymDocs(rng, b, o.IDPrefix)
 	}
 	return b
+}
+
+// AddShapes turns about one field instance in `every` into a geo-shape
+// instance (chosen by position, no random draws). The shape bytes cannot
+// collide with a term and hold no 0xff (the doc-value separator).
+func AddShapes(b *Batch, every int) {
+	for di := range b.Docs {
+		for fi := range b.Docs[di].Fields {
+			// (a geo-shape field always comes with tokens in bleve: shape-only
+			// instances of a field without any term are outside the domain)
+			if (di*7+fi*3+len(b.Docs[di].Fields))%every == 0 && len(b.Docs[di].Fields[fi].Toks) > 0 {
+				b.Docs[di].Fields[fi].Shape = []byte(fmt.Sprintf("\x01shape-%d-%d", di, fi))
+			}
+		}
+	}
 }
 
 // compose builds a composite field exactly like bleve builds `_all`: token
